@@ -51,7 +51,7 @@ ASSUMPTIONS = [
 
 SUBBYTE = [n for n in O.NUMERIC if O.SPECS[n].bits < 8]
 QUICK_FRACTION = 0.60
-N_RANDOM = {"quick": 30000, "thorough": 100000}
+N_RANDOM = {"quick": 30000, "thorough": 1200000}
 
 _grid_cache: dict | None = None
 
